@@ -11,11 +11,41 @@ import (
 
 type genState struct {
 	g    *vh.Gen
-	adds [4]int
+	adds [7]int
 	ntok int
 }
 
-func (s *genState) add(mb int) string {
+// young dates are far in the future (never expired), old ones in 2020 (expired for every period)
+const youngBase = 4000000000
+
+// afterReopen is the pattern a restarted server usually sees before its first retention pass: a
+// delivery to a mailbox that does not exist yet, below a first-level directory of its own, then a walk
+// (visit or a retention scan, which is driven by the walk).
+func (s *genState) afterReopen() []string {
+	g := s.g
+	var fresh []int
+	for mb := 3; mb < 7; mb++ {
+		if s.adds[mb] == 0 {
+			fresh = append(fresh, mb)
+		}
+	}
+	if len(fresh) == 0 || g.Chance(0.3) {
+		if g.Chance(0.5) {
+			return []string{"v"}
+		}
+		return nil
+	}
+	mb := fresh[g.Intn(len(fresh))]
+	ops := []string{s.addDated(mb, true)}
+	if g.Chance(0.3) {
+		ops = append(ops, "t")
+	}
+	return append(ops, "v")
+}
+
+func (s *genState) add(mb int) string { return s.addDated(mb, s.g.Chance(0.3)) }
+
+func (s *genState) addDated(mb int, young bool) string {
 	g := s.g
 	s.ntok++
 	seed := []byte(fmt.Sprintf("m%d line\r\n", s.ntok))
@@ -27,7 +57,11 @@ func (s *genState) add(mb int) string {
 		rep = 0
 	}
 	s.adds[mb]++
-	return fmt.Sprintf("a.%d.t%d.%d.%s.%d", mb, s.ntok, 1600000000+s.ntok*3600, hex.EncodeToString(seed), rep)
+	date := 1600000000 + s.ntok*3600
+	if young {
+		date = youngBase + s.ntok
+	}
+	return fmt.Sprintf("a.%d.t%d.%d.%s.%d", mb, s.ntok, date, hex.EncodeToString(seed), rep)
 }
 
 func (s *genState) handle(mb int) int {
@@ -42,6 +76,10 @@ func (s *genState) op(mbs []int) string {
 	mb := mbs[g.Intn(len(mbs))]
 	x := g.Float64()
 	switch {
+	case x < 0.06:
+		return "v"
+	case x < 0.09:
+		return "t"
 	case x < 0.55:
 		return s.add(mb)
 	case x < 0.70:
@@ -72,6 +110,16 @@ func gen(g *vh.Gen) {
 	emit(2, []string{a(0, 1), a(0, 2), "X", a(0, 3), "R", a(0, 4)})
 	emit(0, []string{a(0, 1), a(1, 2), "R", "r.0.0", "R", a(0, 3), "p.1", "R"})
 	emit(0, []string{"R", "X", a(3, 1), "p.3", "X", "R"})
+	// restart, delivery to a mailbox that does not exist yet (first-level directory of its own), THEN the
+	// first walk / retention pass of the new store object: it must still see the previous lifetime's mail
+	y := func(mb, n int) string {
+		return fmt.Sprintf("a.%d.y%d.%d.%s.1", mb, n, youngBase+n, hex.EncodeToString([]byte(fmt.Sprintf("young %d\r\n", n))))
+	}
+	emit(0, []string{a(0, 1), a(1, 2), a(2, 3), a(3, 4), "X", y(4, 5), "v"})
+	emit(0, []string{a(0, 1), a(1, 2), a(2, 3), a(3, 4), "R", y(4, 5), "v"})
+	emit(0, []string{a(0, 1), a(0, 2), y(0, 3), a(3, 4), "X", y(5, 5), "t", "v", "X", "v"})
+	emit(0, []string{a(0, 1), a(2, 2), "R", y(6, 3), "t", "v", "R", "t"})
+	emit(2, []string{a(0, 1), y(3, 2), "t", "v", "R", "v"})
 	// the cap shrinks between runs: the next delivery evicts several messages at once
 	emit(0, []string{a(0, 1), a(0, 2), a(0, 3), a(0, 4), "C.2", a(0, 5), "R"})
 	emit(3, []string{a(1, 1), a(1, 2), a(1, 3), "X", "C.1", a(1, 4), "C.0", a(1, 5)})
@@ -84,12 +132,15 @@ func gen(g *vh.Gen) {
 		for j, n := 0, 2+g.Intn(9); j < n; j++ {
 			if g.Chance(0.25) {
 				ops = append(ops, "R")
+				ops = append(ops, s.afterReopen()...)
 			} else if g.Chance(0.06) {
 				ops = append(ops, fmt.Sprintf("C.%d", g.Intn(4)))
+				ops = append(ops, s.afterReopen()...)
 			}
 			ops = append(ops, s.op(mbs))
 		}
 		ops = append(ops, "R")
+		ops = append(ops, s.afterReopen()...)
 		emit(cap, ops)
 	}
 	// real restarts; after a restart the first delivery often goes to the mailbox the previous
@@ -103,6 +154,9 @@ func gen(g *vh.Gen) {
 		for seg, nseg := 0, 2+g.Intn(3); seg < nseg; seg++ {
 			if seg > 0 {
 				ops = append(ops, "X")
+				if g.Chance(0.6) {
+					ops = append(ops, s.afterReopen()...)
+				}
 			}
 			if g.Chance(0.8) {
 				ops = append(ops, s.add(first))
@@ -111,6 +165,7 @@ func gen(g *vh.Gen) {
 				ops = append(ops, s.op(mbs))
 				if g.Chance(0.1) {
 					ops = append(ops, "R")
+					ops = append(ops, s.afterReopen()...)
 				}
 			}
 		}
